@@ -195,7 +195,12 @@ def run_case(prog, fn, paulis):
     else:
         qc = build_circuit(prog)
     if prog.get("nested"):
-        qc = FUNCS[fn](qc)  # history: the input is itself a result
+        first = call_canon(FUNCS[fn], qc)  # history: the input is itself a result
+        if first[0] != "ok":
+            cn = Canon(qc)
+            return dict(kind="cut", fn=fn, prog=prog, input=cn.circuit(qc), paulis=None, factory=cn.factory(fn).s,
+                        impl=[first[0], "first call of the nested pair: " + str(first[1])], expanded=None), cn
+        qc = first[1]
     cn = Canon(qc)
     cin = cn.circuit(qc)
     r = call_canon(FUNCS[fn], qc)
@@ -571,7 +576,7 @@ def generate(rng, tier, outdir):
     skel_rounds = 1 if quick else 4
     numeric_budget = [10**9 if quick else 60000]
 
-    def do(stream, prog, fns=("moves", "cut_wires"), paulis="pick", expand_for=None):
+    def do(stream, prog, fns=("moves", "cut_wires"), paulis="pick", expand_for=None, stats=True):
         n = prog_nq(prog)
         k = sum(1 for i in prog["instrs"] if i[0] == "cut_wire")
         for j, fn in enumerate(fns):
@@ -610,6 +615,8 @@ def generate(rng, tier, outdir):
                 w.count("e2e.pipeline_outcome", case["e2e"][0])
                 if case["e2e"][0] == "ok":
                     w.count("e2e.partitions", len(case["e2e"][1]["partitions"]))
+        if not stats:
+            return
         w.count(f"{stream}.markers", k)
         w.count(f"{stream}.nq", n)
         per = {}
@@ -643,7 +650,10 @@ def generate(rng, tier, outdir):
             # longest layer in the quick tier: alternate the two entry points (both share _transform_cut_wires)
             do("exh", prog, fns=(("moves",), ("cut_wires",))[idx % 2], paulis=ps)
         else:
-            do("exh", prog, paulis=ps, expand_for=("moves", "cut_wires")[idx % 2])
+            # both entry points; all 15 Paulis (and the Coq expand case) on one of them, 3 on the other
+            first = ("moves", "cut_wires")[idx % 2]
+            do("exh", prog, fns=(first,), paulis=ps)
+            do("exh", prog, fns=(("cut_wires", "moves")[idx % 2],), paulis=[ps[idx % 15], ps[(idx + 4) % 15], ps[(idx + 9) % 15]], expand_for=first, stats=False)
     # 2. every marker sequence of length <= 4 on 1..4 qubits, random gate/measure filling, register layouts
     for _ in range(skel_rounds):
         for prog in gen_skeletons(rng):
@@ -670,7 +680,9 @@ def generate(rng, tier, outdir):
     ]
     for prog in fixed_e2e + [gen_e2e(rng) for _ in range(n_e2e)]:
         n = prog_nq(prog)
-        do("e2e", prog, fns=("cut_wires",), paulis=(all_paulis(n) if n <= 2 else weight1_paulis(n) + rand_paulis(rng, n, 4, phases=False)))
+        k = sum(1 for i in prog["instrs"] if i[0] == "cut_wire")
+        ps = all_paulis(1) if n == 1 else [[0, [3] * n]] + rand_paulis(rng, n, 2 if k >= 3 else 4, phases=False)
+        do("e2e", prog, fns=("cut_wires",), paulis=ps)
     # 7. edge cases
     for prog in gen_edge(rng):
         do("edge", prog)
@@ -832,9 +844,26 @@ def track_wires(cin, out, fn):
         else:
             if len(set(b["qs"])) != len(b["qs"]):
                 return f"instruction {pos}: duplicate qubit positions {b['qs']}"
-            for q, p in zip(a["qs"], b["qs"]):
-                if not bind(q, p):
-                    return f"instruction {pos} ({a['op'][0]}) acts on position {p} for wire {q}, which lives on {loc.get(q)} / position held by {holder(p)}"
+            simulable = a["op"][0] in ("barrier", "measure", "reset", "move") or (a["op"][0] == "gate" and a["op"][2] in GATES and not a["cs"])
+            if simulable:
+                # operand ORDER of an executable operation is judged by the simulation (swap(1,0) = swap(0,1));
+                # here only: it acts on the positions of the same set of wires
+                rest = list(b["qs"])
+                unbound = []
+                for q in a["qs"]:
+                    if q in loc:
+                        if loc[q] not in rest:
+                            return f"instruction {pos} ({a['op'][0]}) acts on positions {b['qs']}, but wire {q} lives on {loc[q]}"
+                        rest.remove(loc[q])
+                    else:
+                        unbound.append(q)
+                for q, p in zip(unbound, rest):
+                    if not bind(q, p):
+                        return f"instruction {pos} ({a['op'][0]}) acts on position {p}, which is held by wire {holder(p)}"
+            else:
+                for q, p in zip(a["qs"], b["qs"]):
+                    if not bind(q, p):
+                        return f"instruction {pos} ({a['op'][0]}) acts on position {p} for wire {q}, which lives on {loc.get(q)} / position held by {holder(p)}"
     for q in range(n):
         final = out["qubits"].index(q)
         if q in loc and loc[q] != final:
